@@ -169,6 +169,9 @@ func slotAlts() []slotAlt {
 		{label: "Date", typ: "Date", declB: "type Date time.Time\n" + dateCompanions, local: true},
 		{label: "Stamp", typ: "Stamp", declB: "type Stamp time.Time\n" + stampCompanions, local: true},
 		{label: "[]Date", typ: "[]Date", declB: "type Date time.Time\n" + dateCompanions, local: true},
+		{label: "[]time.Time", typ: "[]time.Time"},
+		{label: "map[string]time.Time", typ: "map[string]time.Time"},
+		{label: "[2]time.Time", typ: "[2]time.Time"},
 		{label: "time.Duration", typ: "time.Duration"},
 		{label: "time.Month", typ: "time.Month"},
 		// recursive
